@@ -1,4 +1,5 @@
 import Ebu.Proofs.ConcTrace
+import Ebu.Proofs.ConcOrder
 import Ebu.Spec.Flow
 import Ebu.Props.C03Facts
 import Ebu.Spec.Conc
@@ -63,5 +64,31 @@ every goroutine finished -/
 theorem no_invocation_starves (ρ : Nat → Nat) (progs : List (List Ebu.Conc.Op)) (hr : Ebu.Conc.Ranked ρ progs)
     (x : Ebu.Conc.SysT) (h : Ebu.Conc.ReachableT progs x) (hmax : ¬ x.s.canStep) : x.s.allDone :=
   (Ebu.Conc.maximal_run_delivers_everything ρ progs hr h hmax).1
+
+/-! ### processed in publish order (M2 with its trace, `Proofs/ConcOrder.lean`) -/
+
+/-- the README's "preserves order", for every schedule: the tickets of the asynchronous entries of an Async+Sequential
+registration, in the order in which its handler was entered, are strictly increasing – with `tickets_in_dispatch_order`
+(tickets are handed out 0,1,2,… in dispatch order) events are processed in the order in which they were dispatched;
+cancelled ones are skipped, none overtakes -/
+theorem async_seq_entries_in_ticket_order (progs : List (List Ebu.Conc.Op)) (x : Ebu.Conc.SysT)
+    (h : Ebu.Conc.ReachableT progs x) (rid : Nat) (hseq : Ebu.Conc.SeqJobs x.s rid) :
+    (Ebu.Conc.asyncEntryTickets x rid).Pairwise (· < ·) :=
+  Ebu.Conc.async_seq_entries_in_ticket_order h rid hseq
+
+/-- … and whatever has been entered is below the ticket that is served next -/
+theorem async_seq_entries_below_serving (progs : List (List Ebu.Conc.Op)) (x : Ebu.Conc.SysT)
+    (h : Ebu.Conc.ReachableT progs x) (rid : Nat) (hseq : Ebu.Conc.SeqJobs x.s rid) :
+    ∀ t ∈ Ebu.Conc.asyncEntryTickets x rid, t < Ebu.Conc.lookupD x.s.sh.serving rid + 1 :=
+  Ebu.Conc.async_seq_entries_below_serving h rid hseq
+
+/-- non-vacuity: an Async+Sequential handler, two publishes, the goroutine of the second event scheduled first: it has
+to wait, and the handler is entered with tickets 0 then 1 -/
+theorem entry_order_example :
+    Ebu.Conc.ReachableT Ebu.Conc.OrderExample.ordProgs Ebu.Conc.OrderExample.ordState ∧
+    Ebu.Conc.SeqJobs Ebu.Conc.OrderExample.ordState.s 0 ∧ Ebu.Conc.OrderExample.ordState.s.allDone ∧
+    Ebu.Conc.asyncEntryTickets Ebu.Conc.OrderExample.ordState 0 = [0, 1] ∧
+    Ebu.Conc.lookupD Ebu.Conc.OrderExample.ordState.s.sh.serving 0 = 2 :=
+  Ebu.Conc.OrderExample.order_hypotheses_satisfiable
 
 end Ebu.Props.C07
